@@ -21,7 +21,7 @@ use chumsky::recursive::{Direct, Indirect};
 
 use crate::ast::{CKind, PForm, POp, G, IT};
 use crate::errs::HErr;
-use crate::input::{HInput, HSpan, HState};
+use crate::input::{tree_input, HInput, HSpan, HState, TreeIn, TT};
 use crate::val::{ap1, apmw, holds, val_count, Fn1, HTok, Mw, Pos, Pred, Val};
 
 /// The extra type used everywhere: error `E`, state `HState`, context `Val`.
@@ -134,7 +134,7 @@ where
     E: HErr<'a, I>,
 {
     match ts {
-        [c] => bx(just::<I::Token, I, Ex<E>>(I::Token::seq(&[*c])[0]).map(|c: I::Token| Val::toks([c]))),
+        [c] => bx(just::<I::Token, I, Ex<E>>(I::Token::seq(&[*c]).remove(0)).map(|c: I::Token| Val::toks([c]))),
         _ => bx(just::<Vec<I::Token>, I, Ex<E>>(I::Token::seq(ts)).map(|v: Vec<I::Token>| Val::toks(v))),
     }
 }
@@ -236,9 +236,23 @@ where
     }))
 }
 
+/// `a.nested_in(select_ref! { TT::Group(_, children) => children.as_slice().map(eoi_of(children), |(t, s)| (t, s)) })`
+pub fn nested_tree<'a, E>(a: P<'a, TreeIn<'a>, E>) -> P<'a, TreeIn<'a>, E>
+where
+    E: HErr<'a, TreeIn<'a>>,
+{
+    let children = chumsky::select_ref! { TT::Group(_, children) => tree_input(children.as_slice()) };
+    bx(a.nested_in::<_, TreeIn<'a>, Ex<E>>(children))
+}
+
 macro_rules! tuple_of {
     ($ps:ident; $($n:tt)*) => { ( $( $ps[$n].clone(), )* ) };
 }
+
+macro_rules! array_of {
+    ($ps:ident; $($n:tt)*) => { [ $( $ps[$n].clone(), )* ] };
+}
+
 
 impl<'a, I: HInput<'a>, E: HErr<'a, I>> Builder<'a, I, E> {
     pub fn new(cv: I::Conv) -> Self {
@@ -262,13 +276,13 @@ impl<'a, I: HInput<'a>, E: HErr<'a, I>> Builder<'a, I, E> {
                 // `next_maybe` instead of `next`: the same token stream, but available on every `Input`
                 bx(custom(move |inp: &mut InputRef<'a, '_, I, Ex<E>>| {
                     let b = inp.cursor();
-                    for &t in &ts {
+                    for t in &ts {
                         match inp.next_maybe() {
-                            Some(u) if *u == t => {}
+                            Some(u) if *u == *t => {}
                             _ => return Err(E::custom(k, inp.span_since(&b))),
                         }
                     }
-                    Ok(Val::toks(ts.iter().copied()))
+                    Ok(Val::toks(ts.iter().cloned()))
                 }))
             }
 
@@ -347,6 +361,16 @@ impl<'a, I: HInput<'a>, E: HErr<'a, I>> Builder<'a, I, E> {
                     6 => bx(group(tuple_of!(ps; 0 1 2 3 4 5))
                         .map(|(a, b, c, d, e, f)| Val::List(vec![a, b, c, d, e, f]))),
                     _ => return unsupported("Group: the tuple form is built for 1..=6 elements"),
+                }
+            }
+            G::GroupArr(gs) => {
+                let ps = self.gs(gs)?;
+                match ps.len() {
+                    1 => bx(group(array_of!(ps; 0)).map(|a: [Val; 1]| Val::List(a.into()))),
+                    2 => bx(group(array_of!(ps; 0 1)).map(|a: [Val; 2]| Val::List(a.into()))),
+                    3 => bx(group(array_of!(ps; 0 1 2)).map(|a: [Val; 3]| Val::List(a.into()))),
+                    4 => bx(group(array_of!(ps; 0 1 2 3)).map(|a: [Val; 4]| Val::List(a.into()))),
+                    _ => return unsupported("GroupArr: the array form is built for 1..=4 elements"),
                 }
             }
 
@@ -459,6 +483,7 @@ impl<'a, I: HInput<'a>, E: HErr<'a, I>> Builder<'a, I, E> {
                 }
             }
             G::Boxed(a) => bx(self.g(a)?.boxed()),
+            G::NestedIn(a) => I::nested_in(self.g(a)?)?,
             G::Pratt(form, atom, ops) => {
                 let atom = self.g(atom)?;
                 let ops: Vec<POpBox<'a, I, E>> = ops.iter().map(|o| self.pop(o)).collect::<Res<_>>()?;
